@@ -215,6 +215,7 @@ def run(repo, tier):
     lexrules.check_lexer(rep, facts)
     skips_blank = lexrules.check_reader(rep, facts)
     lexrules.check_handover(rep, facts, skips_blank)
+    lexrules.check_operand_spelling(rep, facts)
     try:
         lexrules.check_register_numbers(rep, facts)
     except AnalysisError as e:
